@@ -687,15 +687,32 @@ func SetCacheKey(f *Function) string {
 	return f.CacheKey
 }
 
+// bodyNeedsBraces tells whether a single statement lambda body must be written {body} to be read back as that
+// body: anything that is not an expression binding tighter than => (return, break, comments, a = b, a && b, a : b),
+// and anything whose text starts with { (a map literal) or with a lambda (x => ...).
+func bodyNeedsBraces(n ast.Node) bool {
+	switch v := n.(type) {
+	case *ast.ReturnStatement, *ast.ControlExpression, *ast.Comment, *ast.MapLiteral:
+		return true
+	case *ast.FunctionLiteral:
+		return v.IsLambda
+	case *ast.InfixExpression:
+		return ast.Precedences[v.Type()] <= ast.LAMBDA || bodyNeedsBraces(v.Left)
+	case *ast.IndexExpression:
+		return bodyNeedsBraces(v.Left)
+	case *ast.CallExpression:
+		return bodyNeedsBraces(v.Function)
+	}
+	return false
+}
+
 func (f Function) lambdaPrint(ps *ast.PrintState, out *strings.Builder) string {
 	if len(f.Parameters) != 1 {
 		out.WriteString(")=>")
 	} else {
 		out.WriteString("=>")
 	}
-	needBraces := len(f.Body.Statements) != 1 ||
-		f.Body.Statements[0].Value().Type() == token.LBRACE ||
-		f.Body.Statements[0].Value().Type() == token.LAMBDA
+	needBraces := len(f.Body.Statements) != 1 || bodyNeedsBraces(f.Body.Statements[0])
 	if needBraces {
 		out.WriteString("{")
 	}
